@@ -214,7 +214,11 @@ Section WithEnv.
           let f2 := match fr_state f1 with FComplete => fr_update_expired f1 now | _ => f1 end in
           match fr_state f2 with
           | FReceiving => (POk, store f2 r, c0)
-          | FError => (PErr, store f2 r, c0)
+          | FError =>
+            (* the failed instance is forgotten: a later copy of it can be received (D41) *)
+            (PErr, mk_recv (rv_objects r) (rv_completed r) (rv_error r)
+                           (filter (fun q => negb (fst q =? id)) (rv_fdt_receivers r))
+                           (rv_fdt_current r) (rv_closed r), c0)
           | FExpired => (POk, store f2 r, c0)
           | FComplete =>
             (* the instance becomes the current one *)
